@@ -351,11 +351,31 @@ func scenarioC12(c *hlib.RunCtx) *hlib.Violation {
 				}
 			}
 		}
+		// decorated: 1 = fields the report type does not have (must not be stored),
+		// 2/3 = bytes after the JSON value (whether such a body is accepted is not
+		// judged; what is stored if it is, is)
+		decorated := 0
 		if body == nil {
 			body, _ = json.Marshal(r)
+			if len(body) > 2 && body[0] == '{' && t.Bool(1, 6) {
+				decorated = 1 + t.Draw(3)
+				switch decorated {
+				case 1:
+					body = []byte(`{"Hostname":"build-17","Cwd":"/home/u",` + string(body[1:]))
+					body = []byte(strings.Replace(string(body), `"Programs":[{`, `"Programs":[{"Path":"/usr/local/bin/x",`, 1))
+				case 2:
+					body = append(body, []byte("\n"+`{"Week":"2024-01-01","X":0.25,"Config":"v1.0.0","Programs":[{"Program":"evil.example/prog","Counters":{"secret":1}}]}`)...)
+				case 3:
+					body = append(body, []byte(" trailing bytes")...)
+				}
+			}
 		}
 		truncated := false
-		switch t.Biased(4, 3, 4) {
+		trunc := t.Biased(4, 3, 4)
+		if decorated >= 2 {
+			trunc = 0 // a cut inside the trailing bytes would leave the first value whole
+		}
+		switch trunc {
 		case 1: // truncated JSON
 			if len(body) > 2 {
 				body = body[:1+t.Draw(len(body)-1)]
@@ -383,7 +403,11 @@ func scenarioC12(c *hlib.RunCtx) *hlib.Violation {
 		}
 		// body stream
 		fr := &faultyReader{data: body, cutAt: -1}
-		switch t.Biased(4, 2, 3) {
+		streamFault := t.Biased(4, 2, 3)
+		if decorated >= 2 && streamFault >= 2 {
+			streamFault = 1
+		}
+		switch streamFault {
 		case 1:
 			fr.chunk = 1 + t.Draw(7)
 		case 2:
@@ -423,7 +447,13 @@ func scenarioC12(c *hlib.RunCtx) *hlib.Violation {
 			fail("server-error", "request %q (%s) was answered %d", why, method, rec.Code)
 			break
 		}
-		if wantValid {
+		if wantValid && decorated >= 2 && rec.Code >= 400 && rec.Code < 500 {
+			// refused because of the bytes after the value: allowed, nothing may change
+			if !reflect.DeepEqual(before, after) {
+				fail("invalid-stored", "request %q (%s) was answered %d but the storage changed: %v -> %v", why, method, rec.Code, before, after)
+				break
+			}
+		} else if wantValid {
 			name := fmt.Sprintf("%s/%s.json", r.Week, fmtG(r.X))
 			if rec.Code != 200 {
 				fail("valid-rejected", "a valid approved report (week %s, X %v, config %s) was answered %d: %s", r.Week, r.X, r.Config, rec.Code, strings.TrimSpace(rec.Body.String()))
@@ -436,9 +466,18 @@ func scenarioC12(c *hlib.RunCtx) *hlib.Violation {
 				break
 			}
 			var got report
-			if err := json.Unmarshal(data, &got); err != nil {
-				fail("object-undecodable", "object %s does not decode: %v", name, err)
+			dec := json.NewDecoder(bytes.NewReader(data))
+			dec.DisallowUnknownFields()
+			if err := dec.Decode(&got); err != nil {
+				fail("object-undecodable", "object %s does not decode as a report and nothing else: %v", name, err)
 				break
+			}
+			if dec.More() {
+				fail("object-undecodable", "object %s holds more than one JSON value", name)
+				break
+			}
+			if decorated > 0 {
+				s.Probe(fmt.Sprintf("decorated-body-%d-stored", decorated))
 			}
 			if !sameReport(&got, r) {
 				fail("object-differs", "object %s decodes to a different report than was sent", name)
